@@ -9,7 +9,8 @@
            context.blocks.setdefault(name, []).append(parent_block)
      with the compile-time flags has_known_extends / extends_so_far;
    * compiler.visit_Template epilogue: yield from parent_template.root_render_func(context);
-   * compiler.visit_Output / visit_Block at the top level of a template that extends:
+   * compiler.visit_Output / visit_Block / visit_Include / visit_CallBlock / visit_FilterBlock at the
+     top level of a template that extends:
      not emitted after a known extends, guarded by `parent_template is None` otherwise;
    * compiler.visit_Block call site: scoped => context.derived(locals), required =>
      len(context.blocks[name]) <= 1 test, then context.blocks[name][0](ctx);
@@ -30,6 +31,8 @@ Definition vars := list (name * str).
 
 Inductive item :=
 | IText (s : str)                       (* template data *)
+| IStmt (s : str)                       (* any other statement that writes s where it stands: include of a
+                                           constant template, call block, filter block; a block set / with writes [] *)
 | IVar (v : name)                       (* {{ v }} : loop variable or context variable *)
 | IBlock (b : name)                     (* {% block b %} call site; body and flags in the block table *)
 | ISuper (k : nat)                      (* {{ super() }} (k = 0), {{ super.super() }} (k = 1), ... *)
@@ -111,6 +114,7 @@ Section Exec.
   Fixpoint exec_item (L : vars) (it : item) {struct it} : res :=
     match it with
     | IText s => Ok s
+    | IStmt s => Ok s
     | IVar v => Ok (lookup_var v (L ++ ctx))
     | IBlock b =>
         match assoc b (t_blocks t) with
